@@ -269,6 +269,7 @@ pub fn run_one(opts: RunOpts) -> RunResult {
         stall_pct,
         fuse_pct: if opts.script.is_some() || plan.cfg.probe || std::env::var_os("VMON_NO_PREEMPT").is_some() || Rng::new(mix(opts.seed, 4242)).below(5) != 0 { 0 } else { 60 },
         fused: false,
+        window_pair: None,
         suppressed: 0,
         cooperative: false,
         aged: None,
@@ -970,6 +971,9 @@ async fn lifetime(shared: Shared, local_pk: secp256k1::PublicKey, rng: &mut Rng,
                             _ => None,
                         };
                         let mut same = h2.is_some() && h2 == w.htlcs[*u].hidx;
+                        if let Step::Deliver(v) = &s2 {
+                            w.window_pair = Some((*u, *v));
+                        }
                         if let (true, Step::Deliver(v)) = (same, &s2) {
                             // two parts that agree with each other and with their set, neither
                             // rejecting it: the reference model does not depend on their order
